@@ -162,3 +162,33 @@ pub assume_specification[ VariableIdRevIterator::next ](it: &mut VariableIdRevIt
     ensures
         rit_next(old(it)) >= 0 ==> (r matches Some(v) && vid(v) == rit_next(old(it)) && rit_next(final(it)) == rit_next(old(it)) - 1),
         rit_next(old(it)) < 0 ==> r is None && rit_next(final(it)) == rit_next(old(it));
+
+// ---------------- ambient base graph, restricted graphs, steady states ----------------
+// All graphs of one evaluation share the transitions of the graph handed to the entry point (the
+// "base graph"); restricted graphs (restrict_stg_unit_bdd) only shrink the unit set.
+pub uninterp spec fn base_graph() -> SymbolicAsyncGraph;
+pub open spec fn same_trans(g: &SymbolicAsyncGraph, h: &SymbolicAsyncGraph) -> bool {
+    forall|v: int, s: Seq<bool>, c: int| #[trigger] can_flip(g, v, s, c) == can_flip(h, v, s, c)
+}
+pub open spec fn base_unit() -> ISet<Pt> { unit_of(&base_graph()) }
+pub open spec fn sub_graph(g: &SymbolicAsyncGraph) -> bool {
+    wf_graph(g) && same_trans(g, &base_graph()) && unit_of(g).subset_of(base_unit())
+}
+pub uninterp spec fn net_graph(n: &BooleanNetwork) -> SymbolicAsyncGraph;   // (a) graph the network reference was taken from
+pub assume_specification[ SymbolicAsyncGraph::as_network ](g: &SymbolicAsyncGraph) -> (r: Option<&BooleanNetwork>)
+    ensures r matches Some(n) ==> same_trans(&net_graph(n), g);
+// with_custom_context: the given unit BDD is intersected with the regulation constraints; the call fails
+// iff nothing remains ("No update functions satisfy given constraints"); transitions are those of the network.
+// Contract given for the case used by the repo: the unit BDD is already inside a valid unit set.
+pub uninterp spec fn valid_colors() -> ISet<Pt>;   // points whose colour satisfies the regulation constraints
+pub assume_specification[ SymbolicAsyncGraph::with_custom_context ](n: &BooleanNetwork, c: SymbolicContext, u: Bdd) -> (r: Result<SymbolicAsyncGraph, String>)
+    ensures
+        match r {
+            Ok(g) => unit_of(&g) == bv(&u).intersect(valid_colors()) && same_trans(&g, &net_graph(n)) && unit_of(&g) != ISet::<Pt>::empty(),
+            Err(_) => bv(&u).intersect(valid_colors()) == ISet::<Pt>::empty(),
+        };
+pub open spec fn has_succ(g: &SymbolicAsyncGraph, p: Pt) -> bool { exists|v: int| 0 <= v < dim_n() && #[trigger] can_flip(g, v, p.s, p.c) }
+// FixedPoints::symbolic(g, R): the points of unit(g) and R without any enabled variable
+// (fixed_points/mod.rs: prepare_to_merge = unit AND not can_flip_i for every i, then restricted to R)
+pub assume_specification[ FixedPoints::symbolic ](g: &SymbolicAsyncGraph, r: &GraphColoredVertices) -> (res: GraphColoredVertices)
+    ensures forall|p: Pt| #[trigger] gv(&res).contains(p) <==> unit_of(g).contains(p) && gv(r).contains(p) && !has_succ(g, p);
